@@ -95,13 +95,16 @@ add("C11",
     "Coq theorems: for each of the five layout extensions the code model of map_object_id (byte-index slicing, to_tuples, lower_percent_escape, "
     "padding, reversal, rfind on the lower-cased id) equals an independent Gallina transcription of the extension document for every validated "
     "configuration, every id and every digest outside the recorded known classes; unmappable ids are refused, never mapped elsewhere; "
-    "StorageLayout::new accepts exactly the configurations the documents allow (outside the known classes) and never panics there; helper laws "
+    "StorageLayout::new accepts exactly the configurations the documents allow (outside the known classes), never panics for ANY form of "
+    "configuration, debug and release arithmetic agree, accepted 0003/0004 configurations obey the bounds (generated constant "
+    "MAX_TUPLE_CONFIG), product and shortObjectRoot rules; helper laws "
     "(percent-escape lowering, tuple splitting, 100-character truncation, prefix stripping). Witness lemmas for every known class. "
     "Correspondence: StorageLayout::new / map_object_id of the real library on a configuration grid x id pool compared inside Coq with both models; "
     "system level: the directory an object occupies after commit, refusal of forbidden configurations with nothing written.",
     "Trusted: Coq kernel, Model/Layout.v, Model/LayoutSpec.v (my reading of the five documents in /repo/resources/main/specs), hashlib digests, "
-    "Rust's Unicode case mapping (an input to both models). Known findings: case-fold index shift, 0003 zero tuples, 0007 control characters, "
-    "tuple bounds, shortObjectRoot, 0007 defaults, array configs.",
+    "Rust's Unicode case mapping (an input to both models). Known findings: case-fold index shift, 0007 defaults, array configs. 0003 zero "
+    "tuples, 0007 control characters, tuple bounds and shortObjectRoot - repaired by e1de1bb, 970818d, d1aca14, a91c61b - are must-pass "
+    "regression inputs.",
     "machine-checked proof in Coq (code model = document model, for all ids/configs) + function-level differential correspondence")
 
 add("C13",
@@ -196,8 +199,8 @@ add("C12",
     "Coq theorems over Model/Footprint.v: a relative path without `..` resolves inside its base (witnesses that `..` / absolute escape); "
     "for EVERY id (the id enters staging paths only through hex digits), accepted logical path and content directory, all staged paths, "
     "the staged root and the lock file lie strictly below the staging root; if validate_object_root accepts, the object root is strictly "
-    "inside the storage root, outside `extensions`, neither inside nor above any existing object or the staging root; layouts 0003/0004 "
-    "are safe for every id (via C11's map theorem); a refused commit issues calls in the staging area only; operations other than purge "
+    "inside the storage root, outside `extensions`, neither inside nor above any existing object or the staging root; layouts 0003 "
+    "(configured with tuples) and 0004 are safe for every id (via C11's map theorem); a refused commit issues calls in the staging area only; operations other than purge "
     "touch of other objects nothing, of their own object only inventory/sidecar/declaration/new version directory; purge touches no other "
     "object; every call of the generating model (every prefix) stays within storage root + staging root + named mv sources. "
     "Correspondence: all traced calls of histories with hostile ids / destinations / content-directory names / --object-root values under "
